@@ -176,6 +176,8 @@ Repeat(xs, n) == IF n <= 0 THEN <<>> ELSE xs \o Repeat(xs, n - 1)
 BinOp(op, a, b) ==
     \* Markup + undefined is absorbed by Markup's own operator before the undefined is asked: not documented
     IF a.t = "str" /\ a.m /\ b.t = "undef" THEN Err("EXCLUDED")
+    \* printf-style formatting is str's own operator and is not modelled (also with an undefined operand)
+    ELSE IF a.t = "str" /\ op = "%" THEN Err("EXCLUDED")
     ELSE IF a.t = "undef" \/ b.t = "undef" THEN Err("UndefinedError")
     ELSE IF IsNum(a) /\ IsNum(b) THEN
         LET x == NumOf(a)  y == NumOf(b) IN
